@@ -543,6 +543,13 @@ func c09Main(c *lib.Ctx) {
 			logBase := filepath.Join(wd, fmt.Sprintf("race-%d", r))
 			cmd := exec.Command(self, "c09", "run", strconv.Itoa(r), strconv.Itoa(g), pool, strconv.Itoa(calls))
 			cmd.Env = append(os.Environ(), "GORACE=halt_on_error=0 log_path="+logBase+" history_size=3", "GOMAXPROCS=8")
+			if r%8 == 5 {
+				// one race-detector run in eight: 80 goroutines that are all inside the same entry
+				// point at the same moment (gated readers), then a short PRNG sequence each
+				g = 80
+				cmd = exec.Command(self, "c09", "run", strconv.Itoa(r), strconv.Itoa(g), pool, "12")
+				cmd.Env = append(os.Environ(), "GORACE=halt_on_error=0 log_path="+logBase+" history_size=3", "GOMAXPROCS=8", "C09_MANY=1")
+			}
 			if r >= nruns {
 				// runs of the build without race detector: value oracle only, several times the
 				// throughput, and Encodes of Files larger than 4 MiB into slow destinations
